@@ -72,7 +72,10 @@ type connCase struct {
 	Hosts string `json:"hosts,omitempty"`
 	// HostsState: a hosts file that is no text — "empty" | "missing" | "dir" (opens, cannot be read), see hostsSrc
 	HostsState string `json:"hosts_state,omitempty"`
-	Items []item `json:"items"`
+	// Server: the serving path of the instance — "" = martian's connection loop (the default), "handler" = martian as
+	// http.Handler under net/http's server (HTTPProxyConfig.TestingHTTPHandler; no interception there)
+	Server string `json:"server,omitempty"`
+	Items  []item `json:"items"`
 }
 
 type dialRec struct{ pre, post string }
@@ -82,6 +85,7 @@ type env struct {
 	mask     int
 	timeOpen bool
 	mode     string
+	server   string
 	frameKind string
 	mu       sync.Mutex // one client connection at a time (activity is attributed by counters)
 	proxy    *rig.Proxy
@@ -159,11 +163,11 @@ func timeFrames(open bool) []reqmodel.TimeFrame {
 }
 
 func newEnv(ctx *core.Ctx, mask int, timeOpen bool, mode string, frameKind string, hosts string) (*env, error) {
-	return newEnvSrc(ctx, mask, timeOpen, mode, frameKind, hostsSrc{Text: hosts})
+	return newEnvSrc(ctx, mask, timeOpen, mode, frameKind, hostsSrc{Text: hosts}, "")
 }
 
-func newEnvSrc(ctx *core.Ctx, mask int, timeOpen bool, mode string, frameKind string, src hostsSrc) (e *env, err error) {
-	e = &env{mask: mask, timeOpen: timeOpen, mode: mode, frameKind: frameKind, names: localNames(), hosts: src.Text, hostsState: src.State, hostsGen: src.generated()}
+func newEnvSrc(ctx *core.Ctx, mask int, timeOpen bool, mode string, frameKind string, src hostsSrc, server string) (e *env, err error) {
+	e = &env{mask: mask, timeOpen: timeOpen, mode: mode, server: server, frameKind: frameKind, names: localNames(), hosts: src.Text, hostsState: src.State, hostsGen: src.generated()}
 	if e.hostsGen {
 		e.hostsReject, e.hostRecs = src.expect()
 		e.names = namesFromHosts(e.hostRecs)
@@ -235,6 +239,13 @@ func newEnvSrc(ctx *core.Ctx, mask int, timeOpen bool, mode string, frameKind st
 	opts, err := reqmodel.ProxyOpts(&fc, e.frames, nil, []string{caFile})
 	if err != nil {
 		return nil, err
+	}
+	if server == "handler" {
+		configure := opts.Configure
+		opts.Configure = func(cfg *forwarder.HTTPProxyConfig) {
+			configure(cfg)
+			cfg.TestingHTTPHandler = true
+		}
 	}
 	inner := opts.Transport
 	opts.Transport = func(tc *forwarder.HTTPTransportConfig) {
@@ -403,6 +414,7 @@ type oneItem struct {
 	Zone     string `json:"zone,omitempty"`
 	Hosts    string `json:"hosts,omitempty"`
 	HostsState string `json:"hosts_state,omitempty"`
+	Server   string `json:"server,omitempty"`
 	// informative (a replay lays the frame family around the clock of the replaying run)
 	FramesUsed []reqmodel.TimeFrame `json:"frames_used,omitempty"`
 	LocalClock string               `json:"local_clock,omitempty"`
@@ -443,6 +455,24 @@ func (it *item) fields() []rig.Field {
 		return it.Connect.Fields
 	}
 	return it.Req.Fields
+}
+
+// targetForm: how the request spells its target.
+func (it *item) targetForm() string {
+	switch {
+	case it.Connect != nil:
+		return "authority-form"
+	case it.Req.Absolute:
+		return "absolute-form"
+	}
+	return "origin-form"
+}
+
+func (e *env) serverName() string {
+	if e.server == "" {
+		return "conn-loop"
+	}
+	return e.server
 }
 
 func (it *item) method() string {
@@ -518,7 +548,7 @@ func (e *env) runConn(ctx *core.Ctx, cc *connCase) {
 	secure := false
 	for i := range cc.Items {
 		it := &cc.Items[i]
-		one := oneItem{Kind: "one", Mask: cc.Mask, TimeOpen: cc.TimeOpen, Mode: cc.Mode, Frames: cc.Frames, Zone: cc.Zone, Hosts: cc.Hosts, HostsState: cc.HostsState, Position: i, Inner: secure,
+		one := oneItem{Kind: "one", Mask: cc.Mask, TimeOpen: cc.TimeOpen, Mode: cc.Mode, Frames: cc.Frames, Zone: cc.Zone, Hosts: cc.Hosts, HostsState: cc.HostsState, Server: cc.Server, Position: i, Inner: secure,
 			Prefix: cc.Items[:i], Item: *it}
 		before := e.quiesce()
 		d0 := e.dialCount()
@@ -529,11 +559,33 @@ func (e *env) runConn(ctx *core.Ctx, cc *connCase) {
 			one.FramesUsed, one.LocalClock = e.frames, now.Format("Mon 2006-01-02 15:04:05 -07:00 MST")
 		}
 
-		if err := c.Send(it.wire(), nil); err != nil {
-			ctx.Crash("client connection stays usable", "", one, "write: "+err.Error())
+		serr := c.Send(it.wire(), nil)
+		var res *rig.Msg
+		var rerr error
+		if serr == nil {
+			res, rerr = c.ReadResponse(it.method(), 10*time.Second)
+		}
+		if e.server == "handler" && i > 0 && res == nil && e.dialCount() == d0 {
+			// net/http's server decides about keep-alive by its own rules (it may have closed the connection after
+			// the previous reply without announcing it): the request is sent again on a connection of its own and
+			// judged there in full
+			ctx.Count("handler/request-resent-on-a-new-connection")
+			c.Close()
+			if c, err = rig.Dial(e.proxy.Addr); err != nil {
+				ctx.Crash("proxy accepts a client connection", "", cc, err.Error())
+				return
+			}
+			defer c.Close()
+			now = time.Now()
+			clock = e.clockAt(now)
+			if serr = c.Send(it.wire(), nil); serr == nil {
+				res, rerr = c.ReadResponse(it.method(), 10*time.Second)
+			}
+		}
+		if serr != nil {
+			ctx.Crash("client connection stays usable", "", one, "write: "+serr.Error())
 			return
 		}
-		res, rerr := c.ReadResponse(it.method(), 10*time.Second)
 		after := e.quiesce()
 		dials := e.dialsFrom(d0)
 		if e.mask&ctlTime != 0 && localHourIndex(time.Now()) != localHourIndex(now) {
@@ -546,9 +598,9 @@ func (e *env) runConn(ctx *core.Ctx, cc *connCase) {
 
 		var out reqmodel.Outcome
 		if it.Connect != nil {
-			out = reqmodel.AskConnect(ctx.Model, &e.cfg, clock, &mctx, it.Connect)
+			out = reqmodel.AskConnectOn(ctx.Model, e.server, &e.cfg, clock, &mctx, it.Connect)
 		} else {
-			out = reqmodel.AskRequest(ctx.Model, &e.cfg, clock, &mctx, it.Req)
+			out = reqmodel.AskRequestOn(ctx.Model, e.server, &e.cfg, clock, &mctx, it.Req)
 		}
 		authority, hasAuthority := it.authority()
 		hn, hostOK := hostOf(authority)
@@ -558,6 +610,9 @@ func (e *env) runConn(ctx *core.Ctx, cc *connCase) {
 		}
 		if cc.Hosts != "" || cc.HostsState != "" {
 			key += "|hosts:" + cc.HostsState + ":" + cc.Hosts
+		}
+		if cc.Server != "" {
+			key += "|server:" + cc.Server
 		}
 		pa := paValues(it.fields())
 		sv, class := e.spec(timeAllowed, hn, pa)
@@ -586,6 +641,10 @@ func (e *env) runConn(ctx *core.Ctx, cc *connCase) {
 		ctx.Case(key, nontrivial)
 		ctx.Count("controls/" + fmt.Sprint(cc.Mask))
 		ctx.Count("mode/" + cc.Mode)
+		ctx.Count("server/" + e.serverName() + "/" + it.targetForm())
+		if sv.refuse && (sv.why == "localhost" || sv.why == "denied") {
+			ctx.Count("server/" + e.serverName() + "/" + it.targetForm() + "/effective-target-fails-" + sv.why)
+		}
 		ctx.Count("method/" + strings.ToUpper(it.method()))
 		ctx.Count("position/" + fmt.Sprint(i))
 		if secure {
@@ -643,6 +702,15 @@ func (e *env) runConn(ctx *core.Ctx, cc *connCase) {
 			if res.Status != 400 {
 				ctx.Disagree("bad framing is answered 400", one, impl, "400")
 			}
+		case "srvbadreq":
+			if res.Status != 400 {
+				ctx.Disagree("net/http's server answers an HTTP/1.1 request without Host field 400 itself", one, impl, "400")
+			}
+		case "nohost":
+			// the request modifiers passed on a URL without host and the transport refuses that URL
+			if res.Status != 500 {
+				ctx.Disagree("a request whose URL has no host when the round trip starts gets the proxy's own error response", one, impl, "500")
+			}
 		case "fwd", "tunnel", "mitm":
 			if res.Status == 407 || res.Status == 403 || res.Status == 451 {
 				ctx.Disagree("request accepted by the model is not refused", one, impl, out.Kind)
@@ -654,7 +722,19 @@ func (e *env) runConn(ctx *core.Ctx, cc *connCase) {
 
 		// --- the property itself, on what was observed ---
 		if sv.refuse {
-			if res.Status != sv.status {
+			// The verdict sv is about the EFFECTIVE target (URL host, else Host field). On the handler path the controls
+			// are handed the URL of an origin-form request as sent (no host): when a host control is the one that fails,
+			// the request is not answered 403 there, it errors out (the proxy's own 4xx/5xx) — demanded in that
+			// case: an error response of the proxy and, as everywhere, nothing dialled.
+			errorsOut := e.server == "handler" && it.targetForm() == "origin-form" && (sv.why == "localhost" || sv.why == "denied") &&
+				res.Status >= 400 && res.Status != sv.status
+			if errorsOut {
+				ctx.Count("handler/origin-form-target-failing-a-host-control-errors-out/" + fmt.Sprint(res.Status))
+			} else if out.Kind == "srvbadreq" && res.Status == 400 {
+				// an HTTP/1.1 request without Host field never reaches the proxy's handler: net/http's server answers it
+				// 400 itself (the correspondence part above holds it to that); nothing may be dialled, as everywhere
+				ctx.Count("handler/answered-400-by-the-http-server-itself")
+			} else if res.Status != sv.status {
 				ctx.SpecFail("a request failing an enabled control is answered "+fmt.Sprint(sv.status)+" ("+sv.why+")", class, one, impl,
 					fmt.Sprintf("status %d", res.Status))
 			}
@@ -671,7 +751,7 @@ func (e *env) runConn(ctx *core.Ctx, cc *connCase) {
 				ctx.SpecFail("no connection is opened and no byte is sent upstream for a refused request", class, one, impl,
 					fmt.Sprintf("dials=%v accepts+%d bytes+%d", dials, after.accepts-before.accepts, after.bytes-before.bytes))
 			}
-			if sv.status == 407 {
+			if sv.status == 407 && res.Status == 407 {
 				wantCh := fmt.Sprintf("Basic realm=%q", proxyName)
 				if got := res.Values("Proxy-Authenticate"); len(got) != 1 || got[0] != wantCh {
 					ctx.SpecFail("a 407 carries Proxy-Authenticate: Basic realm=\"<name>\"", "", one, impl, fmt.Sprintf("Proxy-Authenticate=%q", got))
@@ -739,6 +819,7 @@ type envKey struct {
 	frames   string
 	hosts    string
 	hostsState string
+	server   string
 }
 
 type envSlot struct {
@@ -756,19 +837,19 @@ type envPool struct {
 func newEnvPool(ctx *core.Ctx) *envPool { return &envPool{envs: map[envKey]*envSlot{}, ctx: ctx} }
 
 func (p *envPool) get(mask int, timeOpen bool, mode string, frames string, hosts string) (*env, error) {
-	return p.getSrc(mask, timeOpen, mode, frames, hostsSrc{Text: hosts})
+	return p.getSrc(mask, timeOpen, mode, frames, hostsSrc{Text: hosts}, "")
 }
 
 func (cc *connCase) hostsSrc() hostsSrc { return hostsSrc{State: cc.HostsState, Text: cc.Hosts} }
 
-func (p *envPool) getSrc(mask int, timeOpen bool, mode string, frames string, src hostsSrc) (*env, error) {
+func (p *envPool) getSrc(mask int, timeOpen bool, mode string, frames string, src hostsSrc, server string) (*env, error) {
 	if mask&ctlTime == 0 {
 		timeOpen, frames = true, ""
 	}
 	if frames != "" {
 		timeOpen = true
 	}
-	k := envKey{mask, timeOpen, mode, frames, src.Text, src.State}
+	k := envKey{mask, timeOpen, mode, frames, src.Text, src.State, server}
 	p.mu.Lock()
 	sl, ok := p.envs[k]
 	if !ok {
@@ -777,7 +858,7 @@ func (p *envPool) getSrc(mask int, timeOpen bool, mode string, frames string, sr
 	}
 	p.mu.Unlock()
 	// environments are started outside the pool's lock (several at a time)
-	sl.once.Do(func() { sl.env, sl.err = newEnvSrc(p.ctx, mask, timeOpen, mode, frames, src) })
+	sl.once.Do(func() { sl.env, sl.err = newEnvSrc(p.ctx, mask, timeOpen, mode, frames, src, server) })
 	return sl.env, sl.err
 }
 
@@ -834,7 +915,7 @@ func Run(ctx *core.Ctx) {
 		go func() {
 			defer wg.Done()
 			for cc := range jobs {
-				e, err := pool.getSrc(cc.Mask, cc.TimeOpen, cc.Mode, cc.Frames, cc.hostsSrc())
+				e, err := pool.getSrc(cc.Mask, cc.TimeOpen, cc.Mode, cc.Frames, cc.hostsSrc(), cc.Server)
 				if err == errHostsRejected {
 					ctx.Count("hosts-file/connection-not-run-construction-fails-as-modelled")
 					continue
@@ -851,6 +932,13 @@ func Run(ctx *core.Ctx) {
 		r := ctx.Rng.Sub()
 		cc := genConn(r, localNames())
 		if i < 3 {
+			ctx.Sample(cc)
+		}
+		jobs <- cc
+	}
+	// every target form x host class x serving path x route, the host controls deciding
+	for i, cc := range targetMatrix(ctx.Rng.Sub(), localNames()) {
+		if i == 0 {
 			ctx.Sample(cc)
 		}
 		jobs <- cc
@@ -879,7 +967,7 @@ func Run(ctx *core.Ctx) {
 	runZones(ctx)
 	var ks []string
 	for k := range pool.envs {
-		ks = append(ks, fmt.Sprintf("%d/%v/%s", k.mask, k.timeOpen, k.mode))
+		ks = append(ks, fmt.Sprintf("%d/%v/%s/%s", k.mask, k.timeOpen, k.mode, k.server))
 	}
 	sort.Strings(ks)
 	ctx.Extra("configurations_run", len(ks))
@@ -904,7 +992,7 @@ func replayWith(ctx *core.Ctx, pool *envPool, raw json.RawMessage) {
 			HostsState string `json:"hosts_state"`
 		}
 		json.Unmarshal(raw, &h)
-		e, err := newEnvSrc(ctx, ctlLocal, true, "direct", "", hostsSrc{State: h.HostsState, Text: h.Hosts})
+		e, err := newEnvSrc(ctx, ctlLocal, true, "direct", "", hostsSrc{State: h.HostsState, Text: h.Hosts}, "")
 		if err != nil && err != errHostsRejected {
 			ctx.Crash("proxy starts with a valid configuration", "", h, err.Error())
 		}
@@ -925,7 +1013,7 @@ func replayWith(ctx *core.Ctx, pool *envPool, raw json.RawMessage) {
 		if err := json.Unmarshal(raw, &o); err != nil {
 			core.Fatalf("bad C04 case: %v", err)
 		}
-		cc = connCase{Kind: "conn", Mask: o.Mask, TimeOpen: o.TimeOpen, Mode: o.Mode, Frames: o.Frames, Zone: o.Zone, Hosts: o.Hosts, HostsState: o.HostsState, Items: append(append([]item{}, o.Prefix...), o.Item)}
+		cc = connCase{Kind: "conn", Mask: o.Mask, TimeOpen: o.TimeOpen, Mode: o.Mode, Frames: o.Frames, Zone: o.Zone, Hosts: o.Hosts, HostsState: o.HostsState, Server: o.Server, Items: append(append([]item{}, o.Prefix...), o.Item)}
 	default:
 		if err := json.Unmarshal(raw, &cc); err != nil {
 			core.Fatalf("bad C04 case: %v", err)
@@ -936,7 +1024,7 @@ func replayWith(ctx *core.Ctx, pool *envPool, raw json.RawMessage) {
 		runZoneChild(ctx, zoneJob{Zone: cc.Zone, Cases: []connCase{cc}})
 		return
 	}
-	e, err := pool.getSrc(cc.Mask, cc.TimeOpen, cc.Mode, cc.Frames, cc.hostsSrc())
+	e, err := pool.getSrc(cc.Mask, cc.TimeOpen, cc.Mode, cc.Frames, cc.hostsSrc(), cc.Server)
 	if err == errHostsRejected {
 		return
 	}
